@@ -15,7 +15,7 @@
    PARTIAL: programs of unbounded size and nesting are not covered by a theorem; generated
    programs of the reference grammar in three layouts are checked on the implementation by the
    `accept` family and compared tree for tree with the model by the `tree` family. *)
-From Coq Require Import NArith List Bool.
+From Coq Require Import NArith Arith List Bool.
 From OQ3 Require Import gen.Templates Model.Accept Proofs.AcceptP.
 Import ListNotations.
 
@@ -35,7 +35,7 @@ Proof.
   specialize (H i Hi). rewrite K in H. cbn in H. apply negb_true_iff in H. exact H.
 Qed.
 
-Example C04_nonvacuous : (List.length ids, List.length ctx_ids) = (83, 10)%nat /\
+Example C04_nonvacuous : (83 <=? List.length ids)%nat = true /\ List.length ctx_ids = 10%nat /\
   length (filter k_c04_rejected ids) = 5%nat.
 Proof. vm_compute. auto. Qed.
 
